@@ -72,10 +72,65 @@ def driveC09 (args : List String) : String :=
     | some _ => "present"
   | _ => "bad-op"
 
+/-- parse `k=a:b;c:d` maps of hex payloads -/
+def parseMap (arg : String) (key : String) : List (Bytes × String) :=
+  if !arg.startsWith (key ++ "=") then [] else
+  let body := (arg.drop (key.length + 1)).toString
+  (body.splitOn ";").filterMap fun kv =>
+    match kv.splitOn ":" with
+    | [k, v] => (hexArg k).map (·, v)
+    | _ => none
+
+def lookupMap (m : List (Bytes × String)) (k : Bytes) : Option String :=
+  (m.find? (·.1 == k)).map (·.2)
+
+def showRecv (pm : List (Bytes × String)) : Framing.RecvResult → String
+  | .msg m => "m:" ++ ((lookupMap pm m).getD "?")
+  | .invalid => "x"
+  | .eof => "end:eof"
+  | .status c => s!"end:status({c})"
+  | .unexpectedEOF => "end:unexpected-eof"
+  | .otherErr => "end:other"
+
+def endingArg (s : String) : Option Framing.Ending :=
+  if s == "clean" then some .clean else if s == "abrupt" then some .abrupt else none
+
+def driveC07 (args : List String) : String :=
+  match args with
+  | ["client", body, ending, pmArg, trArg] =>
+    match hexArg body, endingArg ending with
+    | some b, some e =>
+      let pm := parseMap pmArg "pm"
+      let tr := parseMap trArg "tr"
+      let bad := fun m => lookupMap pm m == some "bad"
+      let trCode := fun t => match lookupMap tr t with
+        | some "bad" => none
+        | some c => c.toInt?
+        | none => none
+      let d := Framing.clientDecode b e
+      " ".intercalate ((Framing.clientRecvAll d bad trCode).map (showRecv pm))
+    | _, _ => "bad-op"
+  | ["server", body, ending, cs, pmArg, _trArg] =>
+    match hexArg body, endingArg ending with
+    | some b, some e =>
+      let pm := parseMap pmArg "pm"
+      let bad := fun m => lookupMap pm m == some "bad"
+      let (rs, _) := Framing.serverRecvAll (cs == "1") b e bad
+      " ".intercalate (rs.map fun r => match r with
+        | .ok m => "m:" ++ ((lookupMap pm m).getD "?")
+        | .error .eof => "end:eof"
+        | .error .extraRequest => "end:extra-request"
+        | .error (.rd .unexpectedEOF) => "end:unexpected-eof"
+        | .error .unmarshal => "end:other"
+        | .error (.rd _) => "end:other")
+    | _, _ => "bad-op"
+  | _ => "bad-op"
+
 def dispatch (line : String) : String :=
   match (line.splitOn " ").filter (· ≠ "") with
   | "C14" :: rest => driveC14 rest
   | "C09" :: rest => driveC09 rest
+  | "C07" :: rest => driveC07 rest
   | _ => "bad-op"
 
 partial def loop (h : IO.FS.Stream) (out : IO.FS.Stream) : IO Unit := do
